@@ -23,7 +23,7 @@ BASE = {"f1.txt": b"one\n", "m2.txt": b"two\n", "d": {"inner.txt": b"i\n"}, "h.h
 KINDS = ["dangling", "fifo", "socket", "vanished", "eacces", "dotdot-name", "dotdir", "loop", "noread-html", "noread-mbox"]
 # faults at the operating-system seam: the k-th and every later stat() of the entry fails (it was there when the
 # directory was read and for the first k-1 looks); a sub-directory that may be read but not searched
-OS_KINDS = ["stat%d-%s" % (k, e) for k in (1, 2, 3, 4) for e in ("enoent", "eacces")] + ["unsearchable"]
+OS_KINDS = ["stat%d-%s" % (k, e) for k in (1, 2, 3, 4) for e in ("enoent", "eacces")] + ["unsearchable", "nosearch"]
 # dot-named variants: under the UMN handler a dot-file is read as a link file
 DOT_KINDS = ["dot-dangling", "dot-fifo", "dot-socket", "dot-vanished", "dot-eacces", "dot-loop"]
 POSITIONS = {"first": "0", "middle": "g", "last": "z"}
@@ -86,6 +86,7 @@ _eopen = set()    # selectors whose open fails with EACCES
 _patched = False
 _os_stat_fail = {}   # absolute path -> [calls so far, first failing call, errno]
 _os_prefix_fail = set()  # absolute directory paths below which every stat/listdir/open fails with EACCES
+_os_nosearch = set()  # directories that may be read (listdir works) but not searched (mode r--): every stat below fails
 
 
 def _patch():
@@ -135,7 +136,7 @@ def _patch():
             rec[0] += 1
             if rec[0] >= rec[1]:
                 raise OSError(rec[2], os.strerror(rec[2]) + " (injected)", sp)
-        for pre in _os_prefix_fail:
+        for pre in list(_os_prefix_fail) + list(_os_nosearch):
             if sp.startswith(pre + "/"):
                 raise PermissionError(errno.EACCES, "Permission denied (injected)", sp)
 
@@ -183,11 +184,12 @@ def _plant(root, d, kind, pos):
         rig.write_file(p, b"here for a while\n")
         _os_stat_fail[p] = [0, int(kind[4]), errno.ENOENT if kind.endswith("enoent") else errno.EACCES]
         return name
-    if kind == "unsearchable":
+    if kind in ("unsearchable", "nosearch"):
         os.makedirs(p)
         rig.write_file(os.path.join(p, "inner.txt"), b"i\n")
         rig.write_file(os.path.join(p, "gophermap"), b"never readable\n")
-        _os_prefix_fail.add(p)
+        rig.write_file(os.path.join(p, ".links"), b"Name=never readable either\nType=1\nPath=/x\nHost=h\nPort=70\n")
+        (_os_prefix_fail if kind == "unsearchable" else _os_nosearch).add(p)
         return name
     if kind in ("dotdot-pyg", "broken-pyg"):
         rig.write_file(p, b"raise RuntimeError('this module must never be imported')\n", mode=0o755)
@@ -308,6 +310,7 @@ def _run_case(hname, faults, zipmode=False, hide=False, only=False):
     _eopen.clear()
     _os_stat_fail.clear()
     _os_prefix_fail.clear()
+    _os_nosearch.clear()
     w = rig.World({"t": ({} if only else {k: (dict(v) if isinstance(v, dict) else v) for k, v in BASE.items()})}, handlers=HANDLERS[hname], cachetime=0, tag="c12")
     bad = []
     try:
@@ -347,6 +350,19 @@ def _run_case(hname, faults, zipmode=False, hide=False, only=False):
             kept = [e for e in got if not any(bn in e[1] or (len(e[2]) > 1 and bn in e[2][-1]) for bn in bnames)]
             if kept != base[p]:
                 bad.append((p, "entries-lost", "with faults %r the other entries are %r, without faults %r" % (faults, kept[:6], base[p][:6])))
+        if any(k == "nosearch" for k, _ in faults):
+            # ... and the directory itself, which may be read but not searched: every entry in it is unservable
+            # (none can be inspected), so its own listing is empty -- not an error
+            name = [fault_name(k, pos) for k, pos in faults if k == "nosearch"][0]
+            for p in ("gopher", "gopherp_dir", "http", "gemini", "spartan"):
+                data, tls = rig.request(p, "/t/" + name)
+                r = w.serve(data, tls)
+                try:
+                    got = None if r.internal_error else _entries(p, r.out)
+                except ValueError:
+                    got = None
+                if got is None:
+                    bad.append((p, "unsearchable-listing-failed", "listing of /t/%s (readable, not searchable) answered %r (%s)" % (name, r.out[:100], r.describe_error())))
         if any(k == "dotdir" for k, _ in faults):
             # the directory whose children are all rejected by the selector filter still lists (empty)
             name = [fault_name(k, pos) for k, pos in faults if k == "dotdir"][0]
@@ -364,6 +380,7 @@ def _run_case(hname, faults, zipmode=False, hide=False, only=False):
         _eopen.clear()
         _os_stat_fail.clear()
         _os_prefix_fail.clear()
+        _os_nosearch.clear()
         w.destroy()
     return bad
 
